@@ -174,6 +174,9 @@ func (s *Server) verifyPriority(pubkey *ecdsa.PublicKey, data *ConsensusCommon) 
 		logging.Error("=======verify priority failed.", "Round", data.Round, "RoundIndex", data.RoundIndex,
 			"Kind", kind, "Sub-Users", data.SubUsers, "step", data.Step, "proposerTh", s.CurrentCaravelParams().ProposerThreshold,
 			"stake", stake, "totalStake", totalStake, "seed", lookBackSeed.String(), "addr", addr.String())
+		if err == nil {
+			err = errors.New("invalid priority")
+		}
 		return err
 	}
 
